@@ -312,7 +312,11 @@ def explore(kind, n, cfg, hidden, states, d, persistent, judge, snap=False, extr
         t.c["states"] += 1
         for op in ops:
             t.c["transitions"] += 1
-            menu = [("setp", x, None) for x in forest.LABELS[:n]] if reenter else None
+            menu = None
+            if reenter == "moves":
+                menu = [("setp", x, y) for x in forest.LABELS[:n] for y in (None,) + tuple(forest.LABELS[:n]) if x != y]
+            elif reenter:
+                menu = [("setp", x, None) for x in forest.LABELS[:n]]
             for ex in forest.runs(kind, n, witness, state, op, d, persistent, snap, want, menu):
                 t.c["executions"] += 1
                 if ex.raise_at and ex.raise_at[0] == "reenter":
